@@ -182,6 +182,7 @@ struct Peer
 	size_t headLen = 0;
 	std::string reply;
 	bool sentAll = false;
+	bool waited100 = false, got100 = false; // well-formed Expect: 100-continue request: the peer held its body back until the interim response
 };
 
 void peerTask(Peer* pe)
@@ -195,10 +196,32 @@ void peerTask(Peer* pe)
 	size_t i = 0;
 	bool ok = true;
 	bool stalled = false;
+	const bool expectClient = pe->spec && pe->spec->expect100 && pe->cutAt == (size_t)-1 && pe->stallMs == 0 && pe->headLen < limit;
 	while (i < limit && ok)
 	{
 		size_t n = 1 + r.below(r.below(3) == 0 ? 1 : (r.below(2) ? 16 : 2000));
 		n = std::min(n, limit - i);
+		if (expectClient && i < pe->headLen)
+			n = std::min(n, pe->headLen - i);
+		if (expectClient && i == pe->headLen && !pe->waited100)
+		{
+			// a client that means its Expect header: nothing of the body is sent before "100 Continue" has arrived
+			// (it gives up waiting after 15 s, longer than any wait of the server)
+			pe->waited100 = true;
+			std::string interim;
+			double until = sim::simNow() + 15.0;
+			while (interim.find("\r\n\r\n") == std::string::npos && sim::simNow() < until)
+			{
+				char c;
+				int k = sim::net::rawRecv(fd, &c, 1, until - sim::simNow());
+				if (k <= 0)
+					break;
+				interim += c;
+			}
+			pe->got100 = interim.compare(0, 12, "HTTP/1.1 100") == 0;
+			if (!pe->got100)
+				pe->reply = interim; // whatever it was belongs to the final response
+		}
 		if (pe->stallMs && !stalled && i >= limit / 2)
 		{
 			stalled = true;
@@ -425,6 +448,12 @@ void runHostile(const Plan& p)
 			// the request head (request line + headers + blank line) never arrived completely: this is not a request,
 			// the connection must be dropped without calling the application
 			sim::fail("handler_mismatch", "dispatched_incomplete_head", "a request whose head was cut after %zu of %zu bytes (peer closed) was handed to the application", pe.cutAt, pe.headLen);
+			continue;
+		}
+		if (pe.waited100 && !pe.got100 && !p.get("relaxed") && s->oBody != s->body)
+		{
+			sim::fail("handler_mismatch", "expect_100_unanswered", "a %s request with Expect: 100-continue got no interim response within 15 s and was handed to the application with %zu of its %zu body bytes, although the client had not been told to send them",
+			          s->chunkedUpload ? "chunked" : "Content-Length", s->oBody.size(), s->body.size());
 			continue;
 		}
 		if (pe.sentAll && pe.stallMs < 4000 && !p.get("relaxed"))
